@@ -485,7 +485,10 @@ def main(tier: str, replay: str | None = None):
         for mode, consts in MODES.items():
             d = {"clean": depth_check, "free": 4, "lost": 3}[mode]
             jobs["check", mode] = pool.submit(tlc.run, "Tree", "Tree_check.cfg", workers=5, constants=dict(consts, DEPTH=d), timeout=6000, heap="6g", dump_trace=True)
-            jobs["gen", mode] = pool.submit(tlc.run, "Tree", "Tree_gen.cfg", workers=2, constants=dict(consts, GEN="trans", DEPTH=depth_gen), timeout=6000, heap="6g")
+            # every transition from the trees reachable within depth_gen calls of the first two initial trees
+            # (the third, alias-rich one is explored by the "retarget" slice; quick restricts the lost domain to tree 2)
+            seeds = "{1, 2}" if (tier == "quick" and mode != "lost") else ("{2}" if tier == "quick" else "{1, 2, 3}")
+            jobs["gen", mode] = pool.submit(tlc.run, "Tree", "Tree_gen.cfg", workers=2, constants=dict(consts, GEN="trans", DEPTH=depth_gen, SEEDS=seeds), timeout=6000, heap="4g")
         for name, (_, consts, dq, dt) in SLICES.items():
             jobs["rare", name] = pool.submit(tlc.run, "Tree", "Tree_rare.cfg", workers=3, constants=dict(consts, DEPTH=dq if tier == "quick" else dt), timeout=6000, heap="4g")
         for mode in ("clean", "free"):
